@@ -945,6 +945,7 @@ class Interp(object):
 
         # placeholder arrays (np.ones_like / np.empty ...) that are overwritten completely: x[:-1] = ..; x[-1] = ..
         cov = None
+        full_sv = None
         if isinstance(arr.note, tuple) and arr.note and arr.note[0] == "init" and idx is not None and arr.shape is not None and len(arr.shape) == 1:
             reg = None
             if idx.kind == K_SLICE and idx.items is not None:
@@ -964,11 +965,18 @@ class Interp(object):
                 cov = ("init", stored, regions)
                 if full:
                     sv = self.api.as_num(stored)
-                    pc_ = pconst_store() if (isinstance(arr.parts, tuple) and arr.parts and arr.parts[0] == "pconst") else None
-                    return arr.replace(alg=dict(sv.alg), sign=sv.sign, mono=frozenset(), f0=False, const=_NOCONST, parts=pc_,
-                                       tags=arr.tags | stored.tags | idx.tags, indef=arr.indef or stored.indef, note=cov)
+                    if isinstance(arr.parts, tuple) and arr.parts and arr.parts[0] == "pconst":
+                        return arr.replace(alg=dict(sv.alg), sign=sv.sign, mono=frozenset(), f0=False, const=_NOCONST, parts=pconst_store(),
+                                           tags=arr.tags | stored.tags | idx.tags, indef=arr.indef or stored.indef, note=cov)
+                    # every element has been overwritten: the placeholder's own type no longer enters (the first-element and piece
+                    # bookkeeping below still applies to this store)
+                    full_sv = (sv, stored)
         keep_f0 = False
-        if arr.f0 and idx is not None:
+        if idx is not None and idx.kind == K_SCALAR and idx.has_const() and idx.const == 0 and not isinstance(idx.const, bool) and \
+                arr.kind == K_ARRAY and arr.shape is not None and len(arr.shape) == 1 and v.has_const() and \
+                isinstance(v.const, (int, float)) and not isinstance(v.const, bool) and v.const == 0:
+            keep_f0 = True              # x[0] = 0 on a 1-D array: the first element is exactly zero from here on
+        elif arr.f0 and idx is not None:
             last = idx.items[-1] if (idx.kind == K_TUPLE and idx.items) else idx
             if last is not None and last.kind == K_SLICE and last.items and last.items[0] is not None:
                 lo = last.items[0]
@@ -998,18 +1006,45 @@ class Interp(object):
         if ap is None and arr.kind == K_ARRAY and arr.shape is not None and len(arr.shape) == 1 and idx is not None and \
                 (fresh_empty or (isinstance(arr.parts, tuple) and arr.parts and arr.parts[0] == "build")):
             region = None
+
+            def from_end(x):
+                """-k when the index is provably (length - k), k >= 1: x[n_items + 1] of a buffer of n_items + 2 slots is x[-1]"""
+                if x is None or x.has_const() or x.sym is None or arr.shape[0] is None:
+                    return None
+                d_ = LinExpr(arr.shape[0]) - x.sym
+                return -int(d_.c) if (d_.is_const() and d_.c >= 1 and d_.c == int(d_.c)) else None
             if idx.kind == K_SCALAR and idx.has_const() and idx.const in (0, -1) and not isinstance(idx.const, bool):
                 region = "first" if idx.const == 0 else "last"
+            elif idx.kind == K_SCALAR and from_end(idx) == -1:
+                region = "last"
             elif idx.kind == K_SLICE and idx.items is not None and idx.items[2] is None and idx.items[0] is not None and \
-                    idx.items[1] is not None and idx.items[0].has_const() and idx.items[0].const == 1 and idx.items[1].has_const() and \
-                    idx.items[1].const == -1:
+                    idx.items[1] is not None and idx.items[0].has_const() and idx.items[0].const == 1 and \
+                    ((idx.items[1].has_const() and idx.items[1].const == -1) or from_end(idx.items[1]) == -1):
                 region = "mid"
+            elif idx.kind == K_SLICE and idx.items is not None and idx.items[2] is None and idx.items[0] is not None and \
+                    idx.items[1] is None and idx.items[0].has_const() and idx.items[0].const == 1 and not isinstance(idx.items[0].const, bool):
+                region = "rest"         # x[1:] = ...
+            elif idx.kind == K_SLICE and idx.items is not None and idx.items[2] is None and idx.items[0] is None and \
+                    idx.items[1] is not None and idx.items[1].has_const() and idx.items[1].const == -1:
+                region = "head"         # x[:-1] = ...
             cur = dict(arr.parts[1]) if not fresh_empty else {}
-            if region is not None and region not in cur:
-                d = self.api._part_desc(v) if region != "mid" else (("arr", v.tags) if v.kind == K_ARRAY else None)
+            clash = {"mid": ("rest", "head"), "rest": ("mid", "head", "last"), "head": ("mid", "rest", "first"), "first": ("head",), "last": ("rest",)}
+            if region is not None and region not in cur and not any(c_ in cur for c_ in clash.get(region, ())):
+                d = self.api._part_desc(v) if region in ("first", "last") else (("arr", v.tags) if v.kind == K_ARRAY else None)
                 if d is not None:
                     cur[region] = d
-                    ap = (cur["first"], cur["mid"], cur["last"]) if len(cur) == 3 else ("build", tuple(sorted(cur.items())))
+                    if {"first", "mid", "last"} <= set(cur):
+                        ap = (cur["first"], cur["mid"], cur["last"])
+                    elif {"first", "rest"} <= set(cur):
+                        ap = (cur["first"], cur["rest"])             # [a, rest...]: what np.insert(rest, 0, a) builds
+                    elif {"head", "last"} <= set(cur):
+                        ap = (cur["head"], cur["last"])
+                    else:
+                        ap = ("build", tuple(sorted(cur.items())))
+        if full_sv is not None:
+            sv, stored = full_sv
+            return arr.replace(alg=dict(sv.alg), sign=sv.sign, mono=frozenset(), f0=keep_f0, const=_NOCONST, parts=ap,
+                               tags=arr.tags | stored.tags | idx.tags, indef=arr.indef or stored.indef, note=cov)
         return arr.replace(note=cov if cov is not None else (arr.note if not (isinstance(arr.note, tuple) and arr.note and arr.note[0] == "init") else None),
                            parts=ap,
                            alg=alg, sign=sign_join(arr.sign, v.sign), mono=frozenset(), f0=keep_f0, const=_NOCONST,
@@ -1122,8 +1157,83 @@ class Interp(object):
             return AV(kind=K_FUNC, ref=("builtin", e.id))
         if e.id == "__name__":
             return AV(kind=K_STR)
+        mv = self.module_value(fr, e.id)
+        if mv is not None:
+            return mv
         self.emit("unbound-name", fr, e, name=e.id)
         return top_av(True, "unbound name %s" % e.id, self.atoms)
+
+    # ------------------------------------------------------------------ module-level data
+    _MUTATORS = {"append", "extend", "insert", "pop", "remove", "clear", "update", "setdefault", "popitem", "sort", "reverse", "add", "discard",
+                 "fill", "put", "resize", "itemset", "move_to_end", "appendleft", "popleft"}
+
+    def module_value(self, fr, name):
+        """A name bound once at the top level of the module to a data expression (a table of constants, functions, lambdas; a number built
+        from library constants).  When nothing in the module ever writes through the name it is a constant and its value is the
+        interpretation of that expression.  When some function stores into it (a memo, a registry filled at run time) its content at the
+        time of a call is whatever earlier calls left there: the value is *state kept between calls* -- unknown content, origin `g:<module>.<name>`
+        so that an in-place effect on anything read from it is visible to the rules."""
+        mod = fr.module
+        key = (mod.name, name)
+        cache = self.__dict__.setdefault("_modvals", {})
+        if key in cache:
+            return cache[key]
+        cache[key] = None                # (re-entrancy: a table that mentions itself)
+        assigns = [st for st in mod.tree.body if isinstance(st, (ast.Assign, ast.AnnAssign)) and
+                   ((isinstance(st, ast.Assign) and len(st.targets) == 1 and isinstance(st.targets[0], ast.Name) and st.targets[0].id == name) or
+                    (isinstance(st, ast.AnnAssign) and isinstance(st.target, ast.Name) and st.target.id == name and st.value is not None))]
+        if len(assigns) != 1:
+            return None
+        written = False
+        for fn_ in ast.walk(mod.tree):
+            if not isinstance(fn_, (ast.FunctionDef, ast.Lambda)):
+                continue
+            local = set()
+            if isinstance(fn_, ast.FunctionDef):
+                local = {a.arg for a in fn_.args.args + fn_.args.kwonlyargs} | {n.id for n in ast.walk(fn_) if isinstance(n, ast.Name) and isinstance(n.ctx, ast.Store)}
+                globs = {g for n in ast.walk(fn_) if isinstance(n, ast.Global) for g in n.names}
+                if name in globs:
+                    written = True
+                    break
+                if name in local:
+                    continue
+            for n in ast.walk(fn_):
+                base = None
+                if isinstance(n, (ast.Subscript, ast.Attribute)) and isinstance(n.ctx, (ast.Store, ast.Del)):
+                    base = n.value
+                elif isinstance(n, ast.Call) and isinstance(n.func, ast.Attribute) and n.func.attr in self._MUTATORS:
+                    base = n.func.value
+                while isinstance(base, (ast.Subscript, ast.Attribute)):
+                    base = base.value
+                if isinstance(base, ast.Name) and base.id == name:
+                    written = True
+                    break
+            if written:
+                break
+        tok = "g:%s.%s" % (mod.name, name)
+        rhs = assigns[0].value
+        if written:
+            kind = K_DICT if isinstance(rhs, (ast.Dict, ast.DictComp)) or (isinstance(rhs, ast.Call) and ast.unparse(rhs.func).split(".")[-1] in
+                                                                           ("dict", "OrderedDict", "defaultdict")) else \
+                (K_LIST if isinstance(rhs, (ast.List, ast.ListComp)) else K_TOP)
+            elem = top_av(True, "state kept between calls in %s" % name, self.atoms).replace(origin=frozenset([tok]), tags=frozenset(["modstate"]))
+            if kind == K_DICT:
+                v = AV(kind=K_DICT, dvals={}, dmust=frozenset(), dmay=None, elem=elem, origin=frozenset([tok]), tags=frozenset(["modstate", "modstate-container"]))
+            elif kind == K_LIST:
+                v = AV(kind=K_LIST, elem=elem, origin=frozenset([tok]), tags=frozenset(["modstate", "modstate-container"]))
+            else:
+                v = elem.replace(tags=frozenset(["modstate", "modstate-container"]))
+            self.emit("module-state", fr, assigns[0], name=name, module=mod.name, what="read of state kept between calls")
+            cache[key] = v
+            return v
+        try:
+            mfr = Frame(fr.fi, State(), self)
+            mfr.module = mod
+            v = self.ev(rhs, mfr)
+        except Exception:
+            return None
+        cache[key] = v
+        return v
 
     def ref_av(self, r):
         if r[0] == "func":
@@ -1237,7 +1347,14 @@ class Interp(object):
             if isinstance(k, ast.Constant) and isinstance(k.value, str):
                 dv[k.value] = vv
             else:
-                ok = False
+                try:
+                    kk = ast.literal_eval(k) if k is not None else None          # numbers, booleans, None, tuples of those
+                    hash(kk)
+                    if k is None:
+                        raise ValueError
+                    dv[kk] = vv
+                except Exception:
+                    ok = False
         ks = frozenset(dv)
         return AV(kind=K_DICT, dvals=dv, dmust=ks, dmay=ks if ok else None,
                   origin=frozenset([self.alloc_tok(fr, e)]))
@@ -1412,6 +1529,12 @@ class Interp(object):
         if f.kind != K_FUNC or ref is None:
             return self.unmodelled(fr, node, "call of non-resolved callable %s" % ast.unparse(node.func))
         t = ref[0]
+        if t == "set":
+            # one of a few known callables: the call may be any of them, the result is the join of theirs
+            out = None
+            for m_ in ref[1]:
+                out = join_av(out, self.call(fr, f.replace(ref=m_), args, kwargs, node))
+            return out
         if t == "func":
             return self.call_user(fr, ref[1], args, kwargs, node)
         if t == "bound":
